@@ -303,3 +303,111 @@ Example C20_ex_history_var :
   let e1 := mkEval X1 [1; 1#2] [1; 2] [0; 0] [0; 0] [[2; 1]; [1; 5]] in
   agree (CHist 2 VVar [0; 0] [e1; e1]) = true /\ ok (CHist 2 VVar [0; 0] [e1; e1]) = true.
 Proof. vm_compute. split; reflexivity. Qed.
+
+(** ---- non-vacuity of the hypotheses (audit) ---- *)
+
+(** [C20_accept_prob_is_stated_formula] (and [C20_mh_ratio_change_of_variables]): four coordinates, one of each bound
+    type, proposed and current transformed points that differ in the one-sided and unbounded coordinates; the sum the
+    code forms is 1 >= -700 *)
+Example C20_accept_prob_is_stated_formula_nonvacuous :
+  let cs := [(T0, 0, 1); (T3, 0, 0); (T2, -1, 0); (T1, 0, 2)]%R in
+  let ys' := [1/2; 5; 2; 1]%R in let ys := [1/2; 7; 1; 3]%R in
+  List.Forall wfc cs
+  /\ (sum_logJ cs ys' - sum_logJ cs ys + (-4) - (-2) = 1)%R
+  /\ (-700 <= sum_logJ cs ys' - sum_logJ cs ys + (-4) - (-2))%R
+  /\ accept_prob_R (sum_logJ cs ys' - sum_logJ cs ys + (-4) - (-2))
+     = Rmin 1 ((exp (-4) * jac_det cs ys') / (exp (-2) * jac_det cs ys)).
+Proof.
+  cbv zeta.
+  assert (Hw : List.Forall wfc [(T0, 0, 1); (T3, 0, 0); (T2, -1, 0); (T1, 0, 2)]%R) by (repeat constructor; cbn; lra).
+  assert (He : (sum_logJ [(T0, 0, 1); (T3, 0, 0); (T2, -1, 0); (T1, 0, 2)] [1/2; 5; 2; 1]
+                - sum_logJ [(T0, 0, 1); (T3, 0, 0); (T2, -1, 0); (T1, 0, 2)] [1/2; 7; 1; 3] + (-4) - (-2) = 1)%R)
+    by (cbn [sum_logJ logJ_of]; unfold logJ1, logJ2, logJ3; lra).
+  split; [exact Hw|]. split; [exact He|].
+  assert (Hl : (-700 <= sum_logJ [(T0, 0, 1); (T3, 0, 0); (T2, -1, 0); (T1, 0, 2)] [1/2; 5; 2; 1]
+                - sum_logJ [(T0, 0, 1); (T3, 0, 0); (T2, -1, 0); (T1, 0, 2)] [1/2; 7; 1; 3] + (-4) - (-2))%R)
+    by (rewrite He; lra).
+  split; [exact Hl|]. exact (C20_accept_prob_is_stated_formula _ _ _ _ _ Hw Hl).
+Qed.
+
+(** [C20_accept_prob_range]: a positive, non-constant exp oracle *)
+Example C20_accept_prob_range_nonvacuous :
+  let ex := fun q : Q => 1 + q * q in
+  0 <= ex (-3#2) /\ 0 <= accept_prob ex (-3#2) /\ accept_prob ex (-3#2) <= 1.
+Proof.
+  cbv zeta. assert (H : 0 <= 1 + (-3#2) * (-3#2)) by (vm_compute; discriminate).
+  split; [exact H|]. exact (C20_accept_prob_range (fun q : Q => 1 + q * q) (-3#2) H).
+Qed.
+
+(** [C20_step_accept_rule], [C20_step_first_round] *)
+Example C20_step_nonvacuous :
+  let r0 := mkRow [1#2] (-1#2) (-3) in
+  let st := mkState [r0] 4 (Some ([3#5], -1#2)) 4 0 1 in
+  let st0 := mkState [] 4 (Some ([3#5], -1#2)) 4 0 1 in
+  last_row st = Some r0 /\ s_cand st = Some ([3#5], -1#2)
+  /\ s_rows st0 = [] /\ s_cand st0 = Some ([3#5], -1#2)
+  /\ s_rows (process_simulated (fun _ : Q => 1#2) (fun _ => 0) false 0 st0 (-2) (3#4)) = [mkRow [3#5] (-1#2) (-2 + (-1#2))].
+Proof.
+  cbv zeta. split; [reflexivity|]. split; [reflexivity|]. split; [reflexivity|]. split; [reflexivity|].
+  exact (C20_step_first_round _ _ _ _ (mkState [] 4 (Some ([3#5], -1#2)) 4 0 1) _ _ _ _ eq_refl eq_refl).
+Qed.
+
+(** [C20_init_round_spec], [C20_rejected_never_simulated], [C20_simulation_only_in_support]: a chain with two rows;
+    a stream of two out-of-support proposals (all rejected), and the mixed stream of [C20_ex_init] *)
+Example C20_init_round_nonvacuous :
+  let r0 := mkRow [1#2] (-1#2) (-3) in let r1 := mkRow [3#5] (-1#2) (-5#2) in
+  let st := mkState [r0; r1] 6 None 6 0 0 in
+  let props : list proposal := [([9#1], None); ([-4#1], None)] in
+  last_row st = Some r1 /\ List.Forall rejected props
+  /\ s_rows (fst (init_round st props)) = [r0; r1; r1; r1] /\ snd (init_round st props) = 2%nat
+  /\ s_sims (fst (init_round st props)) = 0%nat.
+Proof.
+  cbv zeta. split; [reflexivity|]. split; [repeat constructor|]. vm_compute. repeat split; reflexivity.
+Qed.
+
+(** [C20_cov_symmetric], [C20_cov_two_pass_is_textbook], [C20_mean_affine], [C20_cov_affine] *)
+Example C20_cov_nonvacuous :
+  let xs := [-1; 0; 1; 4] in let ys := [0; -2; 2; 1] in
+  length xs = length ys /\ xs <> [] /\ ys <> []
+  /\ cov_entry xs ys == cov_entry ys xs /\ cov_entry xs ys == cov_alt xs ys /\ ~ cov_entry xs ys == 0
+  /\ mean (map (fun x => 3 * x + 2) xs) == 3 * mean xs + 2.
+Proof.
+  cbv zeta. split; [reflexivity|]. split; [discriminate|]. split; [discriminate|].
+  split; [apply C20_cov_symmetric; reflexivity|].
+  split; [apply C20_cov_two_pass_is_textbook; [reflexivity|discriminate]|].
+  split; [vm_compute; discriminate|]. apply C20_mean_affine; discriminate.
+Qed.
+
+(** [C20_warton_off_diagonal], [C20_warton_diagonal], [C20_mis_var_diagonal] *)
+Example C20_warton_mis_nonvacuous :
+  ~ 2 == 0 /\ ~ (1#3) == 0
+  /\ warton_entry (1#4) 5 2 (1#3) false == (1#4) * 5
+  /\ warton_entry (1#4) 5 2 2 true == (1#4) * 5 + (1 - (1#4)) * (2 * 2)
+  /\ 2 * 2 == 4 /\ mis_var_entry 4 2 (1#2) true == mis_var_spec_entry 4 (1#2) true.
+Proof.
+  assert (H2 : ~ 2 == 0) by (intro H; discriminate H). assert (H3 : ~ (1#3) == 0) by (intro H; discriminate H).
+  split; [exact H2|]. split; [exact H3|]. split; [exact (C20_warton_off_diagonal _ _ _ _ H2 H3)|].
+  split; [exact (C20_warton_diagonal _ _ _ H2)|]. split; [reflexivity|].
+  apply C20_mis_var_diagonal. reflexivity.
+Qed.
+
+(** [C20_ok_sound]: the model's log-ratio (with the transform, Jacobian oracle differing at the two points) passes;
+    [C20_ok_init_sound]: the state [C20_ex_init] computes, as the implementation's output *)
+Example C20_ok_nonvacuous :
+  let r0 := mkRow [1#2] (-1#2) (-3) in let r1 := mkRow [3#5] (-1#2) (-5#2) in
+  let j := [([7#10], -1); ([3#5], -2)] in
+  ok (CMh true [7#10] (-2) r1 j j (mkExp 0 1) 1 (mh_logratio true (lookup j) [7#10] (-2) r1)) = true
+  /\ mh_logratio true (lookup j) [7#10] (-2) r1 == 3#2
+  /\ ok (CInit (mkState [r0; r1] 6 None 6 0 0)
+               [([9#1], None); ([-4#1], None); ([7#10], Some (-1#2)); ([1#1], Some 0)]
+               [r0; r1; r1; r1] (Some ([7#10], -1#2)) 4 3 true) = true.
+Proof.
+  cbv zeta. split; [apply C20_model_ok|]. split; vm_compute; reflexivity.
+Qed.
+
+(** [C20_mis_mean_scaled_gamma_differs] is a necessity statement: its hypothesis (the two means coincide) holds exactly
+    in the cases its conclusion lists; a non-zero instance with sd = 1 *)
+Example C20_mis_mean_scaled_gamma_differs_nonvacuous :
+  mis_mean_entry 5 3 ((1#2) * 1) == mis_mean_entry 5 3 (1#2)
+  /\ ~ mis_mean_entry 5 3 ((1#2) * 2) == mis_mean_entry 5 3 (1#2).
+Proof. split; [vm_compute; reflexivity|]. intro H. apply C20_mis_mean_scaled_gamma_differs in H. vm_compute in H. discriminate H. Qed.
